@@ -227,6 +227,10 @@ def body(code, ci, s0, s1, sn, rel, ek, bn):
             B._q_metadata = {"k": c}
             B.args[0]._func_adl_executor = print
             find_leaf(B, c)._whatever = object()
+            for k_, n_ in enumerate(ast.walk(B)):       # the references EventDataset hangs on its node - here on every node, each with its own object
+                n_._eds_object = object()
+                if k_ % 2:
+                    n_._func_adl_executor = (lambda a, title=None: a)
             expect_same = True
         elif rel == 5:    # B is a shallow copy of A's top node with one argument replaced (what QMetaData / the metadata cleaner do)
             B = copy.copy(A)
